@@ -46,6 +46,9 @@ type TaskProg struct {
 	MergeDoc    []byte         `json:"merge_doc,omitempty"`
 	MergeReader string         `json:"merge_reader,omitempty"`
 	Writers     []string       `json:"writers,omitempty"`
+	// WFaults[i] != nil: the destination of Writers[i] fails at that offset (the call is expected to return an
+	// error; what matters here is that a failed call leaves nothing behind for anybody else's next call)
+	WFaults []*simio.WriteFault `json:"wfaults,omitempty"`
 	// FileWrites: extensions written through the file helper Subtitles.Write into the scenario's directory
 	// (one directory shared by all tasks, distinct file names) and read back through OpenFile. Real OS, not simulated.
 	FileWrites []string `json:"file_writes,omitempty"`
@@ -187,6 +190,10 @@ func execTaskAt(p TaskProg, tag string) (rec []string) {
 		wp := simio.WritePlan{}
 		if wi%2 == 1 {
 			wp.Medium = "rich" // every second destination also offers io.StringWriter / io.ReaderFrom
+		}
+		if wi < len(p.WFaults) && p.WFaults[wi] != nil {
+			f := *p.WFaults[wi]
+			wp.Fault = &f
 		}
 		w := simio.NewWriter(wp)
 		w.Hook = hook
@@ -788,6 +795,17 @@ func buildDocPool(cfg Config) (*docPool, error) {
 <tt xml:lang="` + tag + `" xmlns="http://www.w3.org/ns/ttml"><head><metadata><ttm:title xmlns:ttm="http://www.w3.org/ns/ttml#metadata">lang</ttm:title></metadata></head>
 <body><div><p begin="00:00:01.000" end="00:00:02.000">Ol&#225;</p><p begin="00:00:03.000" end="00:00:04.000">Tsch&#252;ss</p></div></body></tt>`)})
 	}
+	// SSA documents that re-declare their columns half way through [Events] (first Format line as in nearly every file)
+	p.docs = append(p.docs, corpus.SSATwoFormats(false), corpus.SSATwoFormats(true))
+	// UTF-16 documents (rejected today; the input that support for a second encoding would start to accept), small and
+	// larger than a 4 KiB transcoding chunk: theme "utf16" makes every task read one of them
+	{
+		lt := corpus.LargeTTML(root.Derive("c20-utf16-ttml", 0), 40)
+		st := corpus.GenTTML(root.Derive("c20-utf16-ttml", 1), 1)
+		p.docs = append(p.docs, corpus.UTF16(lt, false), corpus.UTF16(lt, true), corpus.UTF16(st, false), corpus.UTF16(st, true),
+			corpus.UTF16(corpus.GenSRT(root.Derive("c20-utf16-srt", 0), 0), false), corpus.UTF16(corpus.GenVTT(root.Derive("c20-utf16-vtt", 0), 0), true),
+			corpus.UTF16(corpus.GenSSA(root.Derive("c20-utf16-ssa", 0), 0), false))
+	}
 	td, err := corpus.LoadTestdata(cfg.Repo)
 	if err != nil {
 		return nil, err
@@ -838,7 +856,7 @@ func genTask(r *prng.R, pool *docPool, idx int, theme string) TaskProg {
 	if theme != "" && theme != "writers" && theme != "files" && theme != "missing" && theme != "samefile" { // themed scenario: every task works on the same format (different documents)
 		var same []corpus.Doc
 		for _, x := range pool.docs {
-			if x.Format == theme {
+			if x.Format == theme || (theme == "utf16" && strings.Contains(x.Name, "~utf16")) {
 				same = append(same, x)
 			}
 		}
@@ -864,6 +882,15 @@ func genTask(r *prng.R, pool *docPool, idx int, theme string) TaskProg {
 		t.Name = "t" + strconv.Itoa(idx) + ":" + l.Name
 	}
 	t.Ops = genOps(r)
+	if t.Spec != nil && t.Spec.ExtremeTimes() {
+		var ops []api.Op
+		for _, op := range t.Ops {
+			if op.Name != "fragment" && op.Name != "forceduration" {
+				ops = append(ops, op)
+			}
+		}
+		t.Ops = ops
+	}
 	if theme != "" && r.Bool(0.4) { // themed scenarios: lists of one format are merged into each other more often
 		t.Ops = append([]api.Op{{Name: "merge"}}, t.Ops...)
 	}
@@ -885,6 +912,14 @@ func genTask(r *prng.R, pool *docPool, idx int, theme string) TaskProg {
 	nw := r.Intn(3)
 	for i := 0; i < nw; i++ {
 		t.Writers = append(t.Writers, api.WriterFormats[r.Intn(len(api.WriterFormats))])
+	}
+	for i := range t.Writers {
+		if r.Bool(0.15) { // a destination that fails: disk full, peer gone
+			if t.WFaults == nil {
+				t.WFaults = make([]*simio.WriteFault, len(t.Writers))
+			}
+			t.WFaults[i] = &simio.WriteFault{Offset: r.PickInt(0, 1, 100, 1000), Kind: simio.WriteFaultKinds[r.Intn(len(simio.WriteFaultKinds))], Short: r.Bool(0.5)}
+		}
 	}
 	if theme == "samefile" && (t.Reader == "ssa-opts" || t.Reader == "ssa-cb") {
 		t.Reader = "ssa"
@@ -910,14 +945,17 @@ func genScenario(root *prng.R, pool *docPool, j int, lim c20Limits) C20Scenario 
 	sc := C20Scenario{Seed: r.Uint64(), Policy: r.Pick("uniform", "rr", "burst", "starve0"), Mean: float64(r.PickInt(1, 2, 5, 20, 100, 1000))}
 	// swarm: a third of the scenarios are themed (all tasks on one format, so that the same functions and
 	// tables are in use by several tasks at once), some are "writer storms" (all tasks write the same formats)
-	theme := r.Pick("", "", "", "", "ts", "ts", "stl", "vtt", "srt", "ssa", "ttml", "writers", "writers", "files", "missing", "samefile")
+	theme := r.Pick("", "", "", "", "ts", "ts", "stl", "vtt", "srt", "ssa", "ttml", "writers", "writers", "files", "missing", "samefile", "utf16")
 	fileExt := r.Pick("srt", "vtt", "ssa", "stl", "ttml")
 	storm := []string{api.WriterFormats[r.Intn(len(api.WriterFormats))], api.WriterFormats[r.Intn(len(api.WriterFormats))]}
 	var all []int
 	for i := 0; i < n; i++ {
 		t := genTask(r, pool, i, theme)
 		if theme == "writers" {
-			t.Writers = storm
+			t.Writers, t.WFaults = storm, nil
+			if i%2 == 0 && r.Bool(0.6) { // some of the storm's calls fail while the others succeed
+				t.WFaults = []*simio.WriteFault{{Offset: r.PickInt(0, 1, 100, 1000), Kind: simio.WriteFaultKinds[r.Intn(len(simio.WriteFaultKinds))]}, nil}
+			}
 		}
 		if theme == "files" { // every task uses the file helpers with the same extension in the same directory
 			t.FileWrites = []string{fileExt, fileExt}
@@ -1481,6 +1519,9 @@ func minimiseC20(cfg Config, v Violation, budget Deadline) Violation {
 		for wi := 0; wi < len(sc.Tasks[ti].Writers) && !budget.Passed(); {
 			t := cloneC20(sc)
 			t.Tasks[ti].Writers = append(t.Tasks[ti].Writers[:wi], t.Tasks[ti].Writers[wi+1:]...)
+			if wi < len(t.Tasks[ti].WFaults) {
+				t.Tasks[ti].WFaults = append(t.Tasks[ti].WFaults[:wi], t.Tasks[ti].WFaults[wi+1:]...)
+			}
 			t.Decisions = nil
 			if same(t) {
 				sc, cur = t, *best
